@@ -5,6 +5,7 @@ import Tx3Proofs.C01MultiAsset
 import Tx3Proofs.C01Template
 import Tx3Proofs.C01Spec
 import Tx3Proofs.C01Change
+import Tx3Proofs.C01Index
 #print axioms Tx3.Lang.eval_int
 #print axioms Tx3.Lang.lower_int
 #print axioms Tx3.Lang.C01_int_fragment
@@ -33,3 +34,7 @@ import Tx3Proofs.C01Change
 #print axioms Tx3.Lang.input_lowers
 #print axioms Tx3.Lang.C01_source_to_value
 #print axioms Tx3.Lang.full_pipeline_order
+#print axioms Tx3.nth?_spec
+#print axioms Tx3.C01_list_index_exact
+#print axioms Tx3.C01_struct_index_exact
+#print axioms Tx3.C01_index_out_of_range
